@@ -54,7 +54,11 @@ def key_fn(ev, clause):
     ans = ('ans_true' if o['ans'] else 'ans_false') if o['op'] == 'has' else ('ans_some' if o['ans'] else 'ans_none')
     if o['op'] == 'read':
         ans = 'getAllele_' + ans
-    return '|'.join([base, mode] + ([] if r['phased'] else ['unphased']) + [o['op'], contig, ans] + (['after_other_config_used_the_cache'] if stale and r['cache'] else []))
+    oi = [k for k, q in enumerate(r['ops']) if q is o][0]
+    after_mol = any(q['op'] == 'mol' and q['c'] == o['c'] for q in r['ops'][:oi])
+    return '|'.join([base, mode] + ([] if r['phased'] else ['unphased']) + [o['op'], contig, ans]
+                    + (['after_other_config_used_the_cache'] if stale and r['cache'] else [])
+                    + (['after_a_molecule_used_the_resolver'] if after_mol and not o['ans'] else []))
 
 
 def what_fn(ev, clause):
@@ -65,7 +69,7 @@ def what_fn(ev, clause):
     ri = h['runs'].index(r)
     return '%s: run %d of a %s history, flags lazyLoad=%s use_cache=%s phased=%s select=%s ignore=%s: %s(%s,%d%s) returned %s; VCF site: %s; earlier runs: %s' % (
         clause, ri + 1, h['kind'], r['lazy'], r['cache'], r['phased'], r['sel']['s'] if r['sel']['explicit'] else None, r['ign'] or None,
-        {'get': 'getAllelesAt', 'has': 'has_location', 'read': 'getAllele(read ' + ''.join(o.get('seq', [])) + ')'}[o['op']], o['c'], o['p'], (',' + o['b']) if o['op'] == 'get' else '',
+        {'get': 'getAllelesAt', 'has': 'has_location', 'read': 'getAllele(read ' + ''.join(o.get('seq', [])) + ')', 'mol': 'molecule'}[o['op']], o['c'], o['p'], (',' + o['b']) if o['op'] == 'get' else '',
         o['ans'], json.dumps(site[0]) if site else 'none (contigs in VCF: %s)' % ev['contigs'],
         [[MODE[(p['lazy'], p['cache'])], p['ign'], p['phased']] for p in h['runs'][:ri]])
 
